@@ -39,6 +39,8 @@ func main() {
 		cmdCheck(os.Args[2:])
 	case "list":
 		cmdList(os.Args[2:])
+	case "anchors":
+		cmdAnchors(os.Args[2:])
 	default:
 		fmt.Fprintln(os.Stderr, "unknown command", os.Args[1])
 		os.Exit(2)
@@ -130,7 +132,9 @@ func cmdVerify(args []string) {
 type KnownFinding struct {
 	Property   string `json:"property"`
 	Obligation string `json:"obligation"` // exact obligation name, or prefix ending in '*'
+	Region     string `json:"region,omitempty"` // contract expression over the function's entry state delimiting the failing inputs
 	What       string `json:"what"`
+	regionExpr *Expr
 }
 
 type KnownFile struct {
@@ -148,8 +152,9 @@ func loadKnown() KnownFile {
 }
 
 func matchKnown(kf KnownFile, prop, obl string) *KnownFinding {
+	obl = strings.TrimSuffix(obl, "!finding")
 	for i, f := range kf.Findings {
-		if f.Property != prop {
+		if prop != "" && f.Property != prop {
 			continue
 		}
 		if f.Obligation == obl {
@@ -194,7 +199,13 @@ func cmdCheck(args []string) {
 	}
 	var frs []*FuncResult
 	var toolErrs []string
-	for _, n := range names {
+	done := map[string]bool{}
+	for i := 0; i < len(names); i++ {
+		n := names[i]
+		if done[n] {
+			continue
+		}
+		done[n] = true
 		fr, err := e.verifyFunc(n)
 		if err != nil {
 			toolErrs = append(toolErrs, err.Error())
@@ -202,6 +213,12 @@ func cmdCheck(args []string) {
 		}
 		toolErrs = append(toolErrs, fr.EvalErrs...)
 		frs = append(frs, fr)
+		// module callees used through their contracts are verified too (modularity needs both halves)
+		for _, s := range fr.Specs {
+			if fc := e.cs.Funcs[s]; fc != nil && !fc.Extern && !done[s] && e.funcs[s] != nil && fc.Flags["trusted"] == nil {
+				names = append(names, s)
+			}
+		}
 	}
 	// keep only obligations relevant to this property
 	for _, fr := range frs {
@@ -245,6 +262,15 @@ func cmdCheck(args []string) {
 			assume["callee without contract, default frame (result unconstrained; only objects passed directly are modified): "+d] = true
 		}
 		for _, o := range fr.Obls {
+			if strings.HasSuffix(o.Name, "!finding") {
+				solverTime += o.Result.Time
+				if !o.ok() {
+					if k := matchKnown(kf, *prop, o.Name); k != nil {
+						knownLines = append(knownLines, fmt.Sprintf("KNOWN-FINDING: property=%s %s", *prop, k.What))
+					}
+				}
+				continue
+			}
 			total++
 			solverTime += o.Result.Time
 			if o.ok() {
@@ -255,8 +281,8 @@ func cmdCheck(args []string) {
 				}
 				continue
 			}
-			if k := matchKnown(kf, *prop, o.Name); k != nil {
-				knownLines = append(knownLines, fmt.Sprintf("KNOWN-FINDING: property=%s %s (%s)", *prop, k.What, o.Name))
+			if k := matchKnown(kf, *prop, o.Name); k != nil && k.Region == "" {
+				knownLines = append(knownLines, fmt.Sprintf("KNOWN-FINDING: property=%s %s", *prop, k.What))
 				total--
 				continue
 			}
@@ -348,6 +374,11 @@ func writeReplay(dir, prop string, fr *FuncResult, o *Obligation) string {
 	if o.Result != nil {
 		model = o.Result.Model
 	}
+	candidate := false
+	if model == "" && o.Candidate != "" {
+		model = o.Candidate
+		candidate = true
+	}
 	named := map[string]string{}
 	if model != "" {
 		vals := parseModel(model)
@@ -359,7 +390,7 @@ func writeReplay(dir, prop string, fr *FuncResult, o *Obligation) string {
 	}
 	rec := map[string]interface{}{
 		"property": prop, "obligation": o.Name, "kind": o.Kind, "function": o.Func, "position": o.Pos, "text": o.Text, "tags": o.Tags,
-		"status": o.Result.Status, "solver": o.Result.Solver, "solver_output": clipStr(o.Result.Output, 20000), "model_named_inputs": named, "smt_file": o.File,
+		"status": o.Result.Status, "solver": o.Result.Solver, "solver_output": clipStr(o.Result.Output, 20000), "model_named_inputs": named, "model_is_candidate_from_quantifier_free_weakening": candidate, "smt_file": o.File,
 	}
 	data, _ := json.MarshalIndent(rec, "", " ")
 	os.WriteFile(path, data, 0o644)
@@ -416,4 +447,41 @@ func parseModel(m string) map[string]string {
 		out[name] = val
 	}
 	return out
+}
+
+func cmdAnchors(args []string) {
+	e, err := loadEngine(repoDir, verifDir)
+	if err != nil {
+		fmt.Fprintln(os.Stderr, err)
+		os.Exit(2)
+	}
+	for _, name := range args {
+		fn := e.funcs[name]
+		if fn == nil {
+			fmt.Println("no such function", name)
+			continue
+		}
+		r := newRun(e, fn)
+		fr := r.newFrame(fn, nil)
+		type rec struct {
+			pos string
+			a   []string
+		}
+		var recs []rec
+		for _, b := range fn.Blocks {
+			for _, in := range b.Instrs {
+				if a := fr.anchors[in]; len(a) > 0 {
+					recs = append(recs, rec{e.pos(in.Pos()), a})
+				}
+			}
+		}
+		sort.Slice(recs, func(i, j int) bool { return recs[i].pos < recs[j].pos })
+		fmt.Println("==", name)
+		for _, rc := range recs {
+			fmt.Printf("  %-18s %s\n", rc.pos, strings.Join(rc.a, " | "))
+		}
+		for h, n := range fr.loopOrd {
+			fmt.Printf("  loop#%d at block %d (%s) %s\n", n, h.Index, h.Comment, e.pos(h.Instrs[0].Pos()))
+		}
+	}
 }
